@@ -123,9 +123,15 @@ func execMore(args []string) string {
 // posFromCommand replays a `position` command with the library functions on a fresh position; complete=false when a move of
 // the list was rejected (the engine then keeps the moves made so far)
 func posFromCommand(line string) (p *position.Position, complete bool) {
+	p, complete, _ = posAndHistoryFromCommand(line)
+	return
+}
+
+// posAndHistoryFromCommand: also the hash after each move of the list (the game history the engine keeps for repetition detection)
+func posAndHistoryFromCommand(line string) (p *position.Position, complete bool, hist []uint64) {
 	toks := uci.VerifPrepareInput(line)
 	if len(toks) < 2 || toks[0] != "position" {
-		return nil, false
+		return nil, false, nil
 	}
 	rest := toks[1:]
 	switch rest[0] {
@@ -134,16 +140,16 @@ func posFromCommand(line string) (p *position.Position, complete bool) {
 		rest = rest[1:]
 	case "fen":
 		if len(rest) < 7 {
-			return nil, false
+			return nil, false, nil
 		}
 		q, err := position.NewFromFen(strings.Join(rest[1:7], " "))
 		if err != nil {
-			return nil, false
+			return nil, false, nil
 		}
 		p = q
 		rest = rest[7:]
 	default:
-		return nil, false
+		return nil, false, nil
 	}
 	complete = true
 	if len(rest) > 1 && rest[0] == "moves" {
@@ -153,9 +159,10 @@ func posFromCommand(line string) (p *position.Position, complete bool) {
 				complete = false
 				break
 			}
+			hist = append(hist, p.ZobristHash)
 		}
 	}
-	return p, complete
+	return p, complete, hist
 }
 
 func legalUciSet(line string) map[string]bool {
@@ -244,10 +251,11 @@ func execDialog(lines []string) string {
 		b, _ := hexDecode(lh)
 		line := string(b)
 		var wantPos *position.Position
+		var wantHist []uint64
 		if t := uci.VerifPrepareInput(line); len(t) > 0 {
 			if t[0] == "position" && game.VerifState(uci.VerifGame()) != 2 {
-				if q, complete := posFromCommand(line); q != nil && complete {
-					wantPos = q
+				if q, complete, h := posAndHistoryFromCommand(line); q != nil && complete {
+					wantPos, wantHist = q, h
 				}
 			}
 			if t[0] == "position" && game.VerifState(uci.VerifGame()) != 2 {
@@ -279,6 +287,17 @@ func execDialog(lines []string) string {
 			// C03: the position the engine will search is exactly the one the command describes
 			if sr := game.VerifSearch(uci.VerifGame()); sr == nil || sr.Pos.ToFen() != wantPos.ToFen() || sr.Pos.ZobristHash != wantPos.ZobristHash {
 				posExact = false
+			} else {
+				// the game so far (what repetition detection sees): the position after each move of the list, in order
+				got := sr.VerifHistory()
+				if len(got) != len(wantHist) {
+					posExact = false
+				}
+				for i := range wantHist {
+					if i < len(got) && got[i] != wantHist[i] {
+						posExact = false
+					}
+				}
 			}
 		}
 		// let a started search finish (sequential mode)
